@@ -241,3 +241,17 @@ Theorem C09_children_follow_their_revisions_inhabited :
             (R3X.e_ok R3X.parent false)) = [("p-new", R3X.names ["a"]); ("p-old", R3X.names ["b"])].
 Proof. exact (@C09_children_follow_their_revisions_inhabited). Qed.
 Print Assumptions C09_children_follow_their_revisions_inhabited.
+
+(* ---- the restarted process (leg C09m): no hosted controller syncs before the ControllerRevision
+        cache has synced ----
+   "a restarted metacontroller finds every rolling child assigned to at most one revision": it can only
+   find what its ControllerRevision lister holds.  In every reachable state of the composite reconcile
+   loop (Model/Meta.v, gstep), while the ControllerRevision informer has not synced no hosted
+   controller is running, hence none syncs a parent on an empty lister (defect D37, fixed). *)
+From MC Require Import Model.Meta Proofs.C20Proofs.
+
+Theorem C09_no_sync_before_revision_cache : forall h n,
+  g_rev_synced (grun Composite ginit h) = false ->
+  runningb n (g_state (grun Composite ginit h)) = false.
+Proof. exact C20Proofs.C09_no_sync_before_revision_cache. Qed.
+Print Assumptions C09_no_sync_before_revision_cache.
